@@ -1,5 +1,541 @@
-//! E2E engine: the real binary against the simulated node (filled in below).
-use crate::runner::Session;
-pub fn c20_e2e(_s: &mut Session) {}
-pub fn c13_e2e(_s: &mut Session) {}
-pub fn c06_e2e(_s: &mut Session) {}
+//! E2E engine: the real `trampoline` binary (built from /repo's working tree)
+//! talking over stdin/stdout to the harness and over a unix socket to the same
+//! simulated node as WORLD (here on a normal, unpaused runtime with an
+//! autopilot answering RPCs). Real time is used only for generous waits; a
+//! missed wait is *inconclusive*, never a violation.
+use crate::node::*;
+use crate::refmodel::*;
+use crate::runner::*;
+use crate::scen::*;
+use crate::world::{serve, Ev, PendingRpc, Shared};
+use proptest::prelude::*;
+use serde::{Deserialize, Serialize};
+use serde_json::{json, Map, Value};
+use std::sync::{Arc, Mutex};
+use std::time::Duration;
+use tokio::io::{AsyncReadExt, AsyncWriteExt};
+
+pub fn binary() -> String {
+    std::env::var("VERIF_TRAMPOLINE_BIN").unwrap_or_else(|_| "/repo/target/debug/trampoline".into())
+}
+
+#[derive(Clone, Copy, Debug, PartialEq, Eq, Serialize, Deserialize)]
+pub enum PayMode {
+    FailFast,
+    Complete,
+}
+
+pub struct Proc {
+    child: tokio::process::Child,
+    stdin: tokio::process::ChildStdin,
+    pub out: Arc<Mutex<Vec<u8>>>,
+    pub err: Arc<Mutex<String>>,
+    pub shared: Arc<Mutex<Shared>>,
+    dir: std::path::PathBuf,
+    tasks: Vec<tokio::task::JoinHandle<()>>,
+}
+
+pub enum Started {
+    Running(Proc),
+    Refused { code: Option<i32>, stderr: String, init_replied: bool },
+}
+
+static DIRN: std::sync::atomic::AtomicU64 = std::sync::atomic::AtomicU64::new(0);
+
+/// every complete frame written so far (split on blank lines)
+pub fn frames(out: &Arc<Mutex<Vec<u8>>>) -> (Vec<Result<Value, String>>, String) {
+    let b = out.lock().unwrap().clone();
+    let text = String::from_utf8_lossy(&b).to_string();
+    let mut parts: Vec<&str> = text.split("\n\n").collect();
+    let tail = parts.pop().unwrap_or("").to_string();
+    (parts.into_iter().map(|f| serde_json::from_str::<Value>(f).map_err(|e| format!("{e}: {f:?}"))).collect(), tail)
+}
+
+async fn autopilot(shared: Arc<Mutex<Shared>>, mode: PayMode) {
+    loop {
+        tokio::time::sleep(Duration::from_millis(3)).await;
+        let mut g = shared.lock().unwrap();
+        let s = &mut *g;
+        let mut i = 0;
+        while i < s.pending.len() {
+            let method = s.pending[i].method.clone();
+            let reply: Option<Value> = match method.as_str() {
+                "datastore" => Some(s.node.datastore_write(&s.pending[i].params.clone()).0),
+                "listdatastore" => Some(s.node.listdatastore(&s.pending[i].params)),
+                "listsendpays" => Some(s.node.listsendpays(&s.pending[i].params)),
+                "waitsendpay" => Some(s.node.waitsendpay(&s.pending[i].params).unwrap_or_else(|| rpc_error(200, "timed out"))),
+                "pay" => {
+                    let hash = s.pending[i].hash;
+                    match (mode, hash) {
+                        (PayMode::Complete, Some(h)) if s.node.preimages.contains_key(&h) => {
+                            if !s.node.has_complete(&h) {
+                                let g = s.node.new_group();
+                                let p = s.node.add_part(h, g, Some(s.pending[i].uid));
+                                s.node.parts[p].status = PartStatus::Complete;
+                            }
+                            Some(json!({"result": {"status": "complete", "amount_msat": 1000, "amount_sent_msat": 1001, "created_at": 1700000000.5, "parts": 1,
+                                "payment_hash": hex::encode(h), "payment_preimage": hex::encode(s.node.preimages[&h]), "destination": pubkey(&dest_secret()).to_string()}}))
+                        }
+                        _ => Some(rpc_error(210, "Ran out of routes to try (simulated)")),
+                    }
+                }
+                _ => Some(rpc_error(-32601, "unknown method")),
+            };
+            if let Some(r) = reply {
+                let mut p = s.pending.remove(i);
+                let ok = r.get("result").is_some();
+                if let Some(tx) = p.tx.take() {
+                    let _ = tx.send(r.clone());
+                }
+                s.push(Ev::RpcAnswer { uid: p.uid, method: p.method.clone(), hash: p.hash, applied: true, ok, reply: r, fault: false });
+            } else {
+                i += 1;
+            }
+        }
+    }
+}
+
+impl Proc {
+    pub async fn start(options: Map<String, Value>, log_level: Option<&str>, mode: PayMode, height: u32, preimages: &[[u8; 32]]) -> Result<Started, String> {
+        let n = DIRN.fetch_add(1, std::sync::atomic::Ordering::Relaxed);
+        let dir = std::env::temp_dir().join(format!("vfe2e_{}_{}", std::process::id(), n));
+        let _ = std::fs::remove_dir_all(&dir);
+        std::fs::create_dir_all(&dir).map_err(|e| e.to_string())?;
+        let sock = dir.join("lightning-rpc");
+        let listener = tokio::net::UnixListener::bind(&sock).map_err(|e| format!("bind: {e}"))?;
+        let mut node = NodeState::default();
+        node.height = height;
+        for p in preimages {
+            use secp256k1::hashes::{sha256, Hash};
+            node.preimages.insert(sha256::Hash::hash(p).to_byte_array(), *p);
+        }
+        let shared = Arc::new(Mutex::new(Shared {
+            node,
+            log: vec![],
+            pending: vec![],
+            activity: 0,
+            next_uid: 1,
+            win: 0,
+            life: 0,
+            base_ms: 0,
+            t0: Some(tokio::time::Instant::now()),
+            auto_getinfo: u32::MAX,
+            local_id: local_pubkey().to_string(),
+        }));
+        let mut tasks = vec![];
+        tasks.push(tokio::spawn(serve(listener, shared.clone())));
+        tasks.push(tokio::spawn(autopilot(shared.clone(), mode)));
+        let mut cmd = tokio::process::Command::new(binary());
+        cmd.current_dir(&dir).stdin(std::process::Stdio::piped()).stdout(std::process::Stdio::piped()).stderr(std::process::Stdio::piped()).kill_on_drop(true);
+        cmd.env_remove("RUST_LOG");
+        cmd.env("RUST_BACKTRACE", "0");
+        match log_level {
+            Some(l) => {
+                cmd.env("CLN_PLUGIN_LOG", l);
+            }
+            None => {
+                cmd.env("CLN_PLUGIN_LOG", "info");
+            }
+        }
+        let mut child = cmd.spawn().map_err(|e| format!("spawn {}: {e}", binary()))?;
+        let mut stdin = child.stdin.take().unwrap();
+        let mut stdout = child.stdout.take().unwrap();
+        let mut stderr = child.stderr.take().unwrap();
+        let out = Arc::new(Mutex::new(Vec::<u8>::new()));
+        let err = Arc::new(Mutex::new(String::new()));
+        let o2 = out.clone();
+        tasks.push(tokio::spawn(async move {
+            let mut buf = [0u8; 8192];
+            loop {
+                match stdout.read(&mut buf).await {
+                    Ok(0) | Err(_) => break,
+                    Ok(n) => o2.lock().unwrap().extend_from_slice(&buf[..n]),
+                }
+            }
+        }));
+        let e2 = err.clone();
+        tasks.push(tokio::spawn(async move {
+            let mut buf = [0u8; 8192];
+            loop {
+                match stderr.read(&mut buf).await {
+                    Ok(0) | Err(_) => break,
+                    Ok(n) => e2.lock().unwrap().push_str(&String::from_utf8_lossy(&buf[..n])),
+                }
+            }
+        }));
+        let hs1 = json!({"jsonrpc":"2.0","id":"hs-1","method":"getmanifest","params":{"allow-deprecated-apis":false}}).to_string() + "\n\n";
+        stdin.write_all(hs1.as_bytes()).await.map_err(|e| e.to_string())?;
+        let mut p = Proc { child, stdin, out, err, shared, dir, tasks };
+        if p.wait_reply(&json!("hs-1"), 20_000).await.is_none() {
+            let e = p.err.lock().unwrap().clone();
+            p.stop().await;
+            return Err(format!("no getmanifest reply; stderr: {e}"));
+        }
+        let init = json!({"jsonrpc":"2.0","id":"hs-2","method":"init","params":{"options": options, "configuration":{"lightning-dir": p.dir.to_string_lossy(), "rpc-file":"lightning-rpc","startup":true,"network":"regtest","feature_set":{"init":"","node":"","channel":"","invoice":""}}}}).to_string() + "\n\n";
+        let _ = p.stdin.write_all(init.as_bytes()).await;
+        // either the init reply arrives or the process exits
+        for _ in 0..4000 {
+            if p.reply(&json!("hs-2")).is_some() {
+                return Ok(Started::Running(p));
+            }
+            if let Ok(Some(st)) = p.child.try_wait() {
+                tokio::time::sleep(Duration::from_millis(30)).await;
+                let init_replied = p.reply(&json!("hs-2")).is_some();
+                let stderr = p.err.lock().unwrap().clone();
+                p.cleanup();
+                return Ok(Started::Refused { code: st.code(), stderr, init_replied });
+            }
+            tokio::time::sleep(Duration::from_millis(5)).await;
+        }
+        let e = p.err.lock().unwrap().clone();
+        p.stop().await;
+        Err(format!("neither init reply nor exit within 20 s; stderr: {e}"))
+    }
+
+    pub fn reply(&self, id: &Value) -> Option<Value> {
+        let (fr, _) = frames(&self.out);
+        fr.into_iter().filter_map(|f| f.ok()).find(|f| f.get("id") == Some(id) && f.get("method").is_none())
+    }
+
+    pub fn replies(&self, id: &Value) -> Vec<Value> {
+        let (fr, _) = frames(&self.out);
+        fr.into_iter().filter_map(|f| f.ok()).filter(|f| f.get("id") == Some(id) && f.get("method").is_none()).collect()
+    }
+
+    pub async fn wait_reply(&self, id: &Value, timeout_ms: u64) -> Option<Value> {
+        let t0 = std::time::Instant::now();
+        loop {
+            if let Some(r) = self.reply(id) {
+                return Some(r);
+            }
+            if t0.elapsed() > Duration::from_millis(timeout_ms) {
+                return None;
+            }
+            tokio::time::sleep(Duration::from_millis(4)).await;
+        }
+    }
+
+    pub async fn send(&mut self, v: &Value) -> bool {
+        let s = v.to_string() + "\n\n";
+        self.stdin.write_all(s.as_bytes()).await.is_ok()
+    }
+
+    pub async fn send_htlc(&mut self, id: Value, req: &Value) -> bool {
+        self.send(&json!({"jsonrpc":"2.0","id": id, "method":"htlc_accepted","params": req})).await
+    }
+
+    pub async fn send_block(&mut self, height: u32) -> bool {
+        self.send(&json!({"jsonrpc":"2.0","method":"block_added","params":{"block_added":{"hash":"00".repeat(32),"height":height}}})).await
+    }
+
+    /// non-getinfo RPC requests seen by the node
+    pub fn rpcs(&self) -> Vec<(String, Value)> {
+        self.shared.lock().unwrap().log.iter().filter_map(|r| if let Ev::RpcArrive { method, params, .. } = &r.ev { Some((method.clone(), params.clone())) } else { None }).collect()
+    }
+
+    pub fn panicked(&self) -> Option<String> {
+        let e = self.err.lock().unwrap();
+        e.find("panicked at").map(|i| e[i..].chars().take(300).collect())
+    }
+
+    fn cleanup(&mut self) {
+        for t in self.tasks.drain(..) {
+            t.abort();
+        }
+        let _ = std::fs::remove_dir_all(&self.dir);
+    }
+
+    pub async fn stop(mut self) {
+        let _ = self.child.kill().await;
+        self.cleanup();
+    }
+}
+
+pub fn rt() -> tokio::runtime::Runtime {
+    tokio::runtime::Builder::new_multi_thread().worker_threads(2).enable_all().build().unwrap()
+}
+
+fn bin_missing() -> bool {
+    !std::path::Path::new(&binary()).exists()
+}
+
+pub fn default_options() -> Map<String, Value> {
+    let mut m = Map::new();
+    m.insert("trampoline-mpp-timeout".into(), json!(1));
+    m
+}
+
+// ------------------------------------------------------------------ C06 / C13: request batches
+
+#[derive(Clone, Debug, Serialize, Deserialize)]
+pub struct Batch {
+    pub scn: Scenario,
+    pub log_trace: bool,
+}
+
+fn batch_scenario(nontramp_only: bool) -> impl Strategy<Value = Batch> {
+    let prof = if nontramp_only {
+        Profile { w_nontramp: 100, w_reject: 0, w_hash_mismatch: 0, w_raw_payload: 0, max_parts: 6, max_payments: 2, steps: 0..1, crashes: false, write_faults: false, heights: false, ..Profile::default() }
+    } else {
+        Profile { w_raw_payload: 45, w_nontramp: 15, w_reject: 10, w_hash_mismatch: 5, max_parts: 6, max_payments: 3, steps: 0..1, crashes: false, write_faults: false, heights: false, w_under: 40, raw_bytes: true, mpp_choices: &[1], ..Profile::default() }
+    };
+    (scenario_strategy(prof), any::<bool>()).prop_map(|(mut scn, log_trace)| {
+        scn.steps.clear();
+        scn.cfg = Cfg { mpp_timeout_s: 1, ..Cfg::default() };
+        Batch { scn, log_trace }
+    })
+}
+
+/// Sends every HTLC of the scenario to one process; returns violations for `prop`.
+fn run_batch(b: &Batch, prop: &'static str) -> CaseReport {
+    let mut rep = CaseReport::default();
+    if bin_missing() {
+        rep.inconclusive = true;
+        return rep;
+    }
+    let scn = &b.scn;
+    let r = rt();
+    let res: Result<(), String> = r.block_on(async {
+        let pre: Vec<[u8; 32]> = scn.payments.iter().map(|p| p.preimage_bytes()).collect();
+        let started = Proc::start(default_options(), if b.log_trace { Some("trace") } else { None }, PayMode::FailFast, scn.start_height, &pre).await?;
+        let mut p = match started {
+            Started::Running(p) => p,
+            Started::Refused { stderr, .. } => return Err(format!("plugin refused to start with default options: {stderr}")),
+        };
+        let n = scn.htlcs.len();
+        for i in 0..n {
+            if !p.send_htlc(json!(format!("h{i}")), &scn.render(i)).await {
+                break;
+            }
+        }
+        // wait: every HTLC answers within a few seconds (MPP timeout 1 s, pay fails fast)
+        let t0 = std::time::Instant::now();
+        loop {
+            let done = (0..n).filter(|i| p.reply(&json!(format!("h{i}"))).is_some()).count();
+            if done == n || p.panicked().is_some() || t0.elapsed() > Duration::from_secs(12) {
+                break;
+            }
+            tokio::time::sleep(Duration::from_millis(20)).await;
+        }
+        tokio::time::sleep(Duration::from_millis(50)).await;
+        if let Some(msg) = p.panicked() {
+            rep.violations.push(Violation::new("C06", "panic_in_binary", format!("stderr of the plugin: {msg}")).with_sig(json!({"kind":"panic_in_binary"})));
+        }
+        let (fr, tail) = frames(&p.out);
+        for f in &fr {
+            if let Err(e) = f {
+                rep.violations.push(Violation::new("C17", "stdout_frame_is_not_json", e.clone()));
+            }
+        }
+        if !tail.trim().is_empty() && p.panicked().is_none() {
+            // a partial frame may legitimately be in flight only while the process is still writing; re-check after a pause
+            tokio::time::sleep(Duration::from_millis(200)).await;
+            let (_, tail2) = frames(&p.out);
+            if !tail2.trim().is_empty() {
+                rep.violations.push(Violation::new("C17", "stdout_unterminated_frame", format!("stdout ends with {tail2:?}")));
+            }
+        }
+        let logs = fr.iter().filter_map(|f| f.as_ref().ok()).filter(|f| f["method"] == "log").count();
+        if logs > 0 {
+            rep.classes.push("log_notifications_on_stdout".into());
+        }
+        let rpcs = p.rpcs();
+        for i in 0..n {
+            let id = json!(format!("h{i}"));
+            let rs = p.replies(&id);
+            let class = scn.classify(i);
+            if rs.len() > 1 {
+                rep.violations.push(Violation::new("C06", "more_than_one_reply", format!("request h{i} got {} replies", rs.len())));
+                rep.violations.push(Violation::new("C17", "more_than_one_reply", format!("request h{i} got {} replies", rs.len())));
+            }
+            match rs.first() {
+                None => {
+                    if p.panicked().is_none() {
+                        rep.inconclusive = true;
+                        rep.classes.push("reply_missing_without_panic(inconclusive)".into());
+                    } else {
+                        rep.violations.push(Violation::new("C06", "no_reply_after_panic", format!("request h{i} ({:?}) never answered; the plugin panicked", scn.htlcs[i].raw_payload)).with_sig(json!({"kind":"no_reply_after_panic"})));
+                    }
+                }
+                Some(r) => {
+                    let res = r["result"]["result"].as_str().unwrap_or("");
+                    if r.get("error").is_some() || !matches!(res, "continue" | "fail" | "resolve") {
+                        rep.violations.push(
+                            Violation::new("C06", "reply_is_not_continue_fail_resolve", format!("request h{i} (payload {}) answered {}", scn.payload_hex(&scn.htlcs[i]).chars().take(60).collect::<String>(), r.to_string().chars().take(200).collect::<String>()))
+                                .with_sig(json!({"kind":"reply_is_not_continue_fail_resolve", "jsonrpc_error": r.get("error").is_some()})),
+                        );
+                    } else if class == Class::NonTrampoline {
+                        if res != "continue" {
+                            rep.violations.push(Violation::new("C13", "non_trampoline_not_continued", format!("binary answered h{i} with {}", r["result"])));
+                        } else if let Some(pl) = r["result"].get("payload").and_then(|x| x.as_str()) {
+                            let want: Vec<Rec> = scn.payload_records(&scn.htlcs[i]).into_iter().filter(|x| x.0 != TLV_META).collect();
+                            if pl != hex::encode(encode_stream(&want)) {
+                                rep.violations.push(Violation::new("C13", "payload_rewrite_changed_other_records", format!("h{i}: {pl}")));
+                            }
+                            rep.classes.push("rewrite_branch_taken".into());
+                        }
+                    }
+                }
+            }
+        }
+        let all_nontramp = (0..n).all(|i| scn.classify(i) == Class::NonTrampoline);
+        if all_nontramp && !rpcs.is_empty() {
+            rep.violations.push(Violation::new("C13", "side_effect_for_non_trampoline_htlc", format!("RPC socket not idle: {:?}", rpcs.iter().map(|r| r.0.clone()).collect::<Vec<_>>())));
+        }
+        if all_nontramp {
+            rep.classes.push("all_non_trampoline".into());
+        }
+        p.stop().await;
+        Ok(())
+    });
+    if let Err(e) = res {
+        rep.inconclusive = true;
+        rep.classes.push(format!("infrastructure: {}", e.chars().take(80).collect::<String>()));
+    }
+    let malformed = scn.htlcs.iter().filter(|h| h.raw_payload.is_some() || matches!(h.meta, Meta::RawMeta(_))).count();
+    rep.nontrivial = match prop {
+        "C06" => malformed > 0 || scn.htlcs.len() >= 3,
+        "C17" => scn.htlcs.len() >= 2 && b.log_trace,
+        _ => scn.htlcs.len() >= 1,
+    };
+    rep.fingerprint = fp_of(&(0..scn.htlcs.len()).map(|i| scn.render(i).to_string()).collect::<Vec<_>>());
+    rep.classes.push(format!("malformed_{}", malformed.min(3)));
+    if rep.nontrivial {
+        rep.sample = Some(json!({"requests": (0..scn.htlcs.len().min(4)).map(|i| scn.render(i)["onion"]["payload"].clone()).collect::<Vec<_>>(), "n_requests": scn.htlcs.len(), "trace_logging": b.log_trace}));
+    }
+    rep
+}
+
+fn e2e_workers_note(s: &mut Session) {
+    s.assume("E2E: real binary target/debug/trampoline built from /repo's working tree; real time only bounds waits (a missing reply without a panic line is inconclusive, exit 2)");
+}
+
+/// runs `f` and books the inconclusive cases it produced as E2E-inconclusive
+fn booked(s: &mut Session, f: impl FnOnce(&mut Session)) {
+    let before = s.total.inconclusive;
+    let keep = s.shrink_iters;
+    s.shrink_iters = 10; // an E2E case costs seconds of real time
+    f(s);
+    s.shrink_iters = keep;
+    s.e2e_inconclusive += s.total.inconclusive - before;
+}
+
+pub fn c06_e2e(s: &mut Session) {
+    e2e_workers_note(s);
+    booked(s, |s| {
+        s.regress::<Batch, _>("e2e-batch", |b| run_batch(b, "C06"));
+        let n = s.tier.pick(2, 20);
+        s.search("e2e-binary-batches", "e2e-batch", n, || batch_scenario(false), |b| run_batch(b, "C06"));
+    });
+}
+
+pub fn c13_e2e(s: &mut Session) {
+    e2e_workers_note(s);
+    booked(s, |s| {
+        s.regress::<Batch, _>("e2e-batch", |b| run_batch(b, "C13"));
+        s.search("e2e-binary-nontrampoline", "e2e-batch", 12, || batch_scenario(true), |b| run_batch(b, "C13"));
+    });
+}
+
+pub fn c17_e2e(s: &mut Session) {
+    e2e_workers_note(s);
+    booked(s, |s| {
+        s.regress::<Batch, _>("e2e-batch", |b| run_batch(b, "C17"));
+        let n = s.tier.pick(2, 16);
+        s.search("e2e-binary-trace-logging", "e2e-batch", n, || batch_scenario(false).prop_map(|mut b| { b.log_trace = true; b }), |b| run_batch(b, "C17"));
+    });
+}
+
+pub fn replay_batch(prop: &'static str, c: Value) -> Option<CaseReport> {
+    Some(run_batch(&serde_json::from_value(c).ok()?, prop))
+}
+
+// ------------------------------------------------------------------ C20 wiring through the binary
+
+#[derive(Clone, Debug, Serialize, Deserialize)]
+pub struct HeightCase {
+    pub start: u32,
+    pub blocks: Vec<u32>,
+    pub expiry_above: u32,
+}
+
+fn height_case() -> impl Strategy<Value = HeightCase> {
+    (100u32..5000, proptest::collection::vec(0u32..6000, 0..6), 40u32..3000).prop_map(|(start, blocks, expiry_above)| HeightCase { start, blocks, expiry_above })
+}
+
+fn run_height(c: &HeightCase) -> CaseReport {
+    let mut rep = CaseReport::default();
+    if bin_missing() {
+        rep.inconclusive = true;
+        return rep;
+    }
+    let max_told = c.blocks.iter().cloned().chain([c.start]).max().unwrap();
+    let cfg = Cfg { mpp_timeout_s: 1, ..Cfg::default() };
+    let pay = PaymentSpec { preimage: 0x33, invoice_amount: Some(1_000_000), tlv_amount: 1_000_000, hints: Hints::None, explicit_payee: false, recipient_ok: false, drain_parts: 0 };
+    let need = needed_total(&cfg, 1_000_000);
+    let expiry = max_told + c.expiry_above;
+    let h = HtlcSpec { pay: 0, hash_of: None, amount_msat: need, total_msat: Some(need), forward_msat: Some(need), cltv_expiry: expiry, cltv_rel: 1100, forward: false, meta: Meta::Normal, extra: vec![], raw_payload: None };
+    let scn = crate::props::c13::blank(vec![pay], vec![h], 1);
+    let r = rt();
+    let res: Result<(), String> = r.block_on(async {
+        let started = Proc::start(default_options(), None, PayMode::FailFast, c.start, &[]).await?;
+        let mut p = match started {
+            Started::Running(p) => p,
+            Started::Refused { stderr, .. } => return Err(format!("refused: {stderr}")),
+        };
+        for b in &c.blocks {
+            p.send_block(*b).await;
+        }
+        // notifications are handled by spawned tasks: give them time before the HTLC
+        tokio::time::sleep(Duration::from_millis(150)).await;
+        p.send_htlc(json!("x"), &scn.render(0)).await;
+        if p.wait_reply(&json!("x"), 10_000).await.is_none() {
+            if let Some(m) = p.panicked() {
+                rep.violations.push(Violation::new("C20", "panic_in_binary", m));
+            } else {
+                rep.inconclusive = true;
+            }
+        }
+        let pay_req = p.rpcs().into_iter().find(|r| r.0 == "pay");
+        match pay_req {
+            None => rep.inconclusive = true,
+            Some((_, params)) => {
+                let want = (expiry.saturating_sub(max_told).saturating_sub(34)).min(1008) as u64;
+                let got = params["maxdelay"].as_u64();
+                if got != Some(want) {
+                    rep.violations.push(Violation::new(
+                        "C20",
+                        "binary_does_not_use_max_height_told",
+                        format!("startup height {}, block_added {:?}: pay maxdelay {got:?}, expected {want} (expiry {expiry} - max height {max_told} - 34, capped at 1008)", c.start, c.blocks),
+                    ));
+                }
+            }
+        }
+        p.stop().await;
+        Ok(())
+    });
+    if let Err(e) = res {
+        rep.inconclusive = true;
+        rep.classes.push(format!("infrastructure: {}", e.chars().take(80).collect::<String>()));
+    }
+    let stale = c.blocks.windows(2).any(|w| w[1] <= w[0]) || c.blocks.iter().any(|b| *b <= c.start);
+    rep.nontrivial = stale;
+    rep.fingerprint = fp_of(&(c.start, &c.blocks, c.expiry_above));
+    rep.classes.push("e2e_block_added_wiring".into());
+    if rep.nontrivial {
+        rep.sample = Some(serde_json::to_value(c).unwrap());
+    }
+    rep
+}
+
+pub fn c20_e2e(s: &mut Session) {
+    e2e_workers_note(s);
+    booked(s, |s| {
+        s.regress::<HeightCase, _>("e2e-height", run_height);
+        s.search("e2e-binary-block-added", "e2e-height", 6, height_case, run_height);
+    });
+}
+
+pub fn replay_height(c: Value) -> Option<CaseReport> {
+    Some(run_height(&serde_json::from_value(c).ok()?))
+}
